@@ -28,6 +28,12 @@ def ensure_engine():
                          "-DHS_ND=%d" % KINDS["D"], "-DHS_NM=%d" % KINDS["M"], "-DHS_NP=%d" % KINDS["P"],
                          "-DHS_NK=%d" % KINDS["K"], "-DHS_NS=%d" % KINDS["S"]],
                   libs=["-ldl"])
+        # warm the harness kernel cache once, in one process, before the workers start their servers
+        s = Server("warm-%d" % os.getpid())
+        s.start()
+        s.proc.stdin.write("QUIT\n")
+        s.proc.stdin.flush()
+        s.proc.wait()
 
 
 class Server:
@@ -269,6 +275,16 @@ def schedules(r, steps, confl, count):
             if r.random() < 0.5:
                 sb = r.choice([s for (t, s, k) in acc if t == tb])
                 sw.append((tb, sb + r.choice([0, 1, 1]), ta))
+        elif confl and x < 0.8 and len(tids) >= 3:
+            # three parties: stop A inside its access, let B run up to one of its accesses, then a third thread
+            addr, first, last, acc = r.choice(confl)
+            (ta, sa, ka) = r.choice(acc)
+            others = [t for t in tids if t != ta]
+            tb = r.choice(others)
+            tc = r.choice([t for t in others if t != tb])
+            sw.append((ta, max(1, sa + r.choice([0, 0, 1])), tb))
+            if steps.get(tb, 0) > 0:
+                sw.append((tb, r.randint(1, steps[tb]), tc))
         else:
             for _k in range(r.choice([1, 1, 2, 3])):
                 ta = r.choice(tids)
